@@ -19,6 +19,8 @@ ELEM_PRESERVING = {"filter", "inspect", "skip_while", "take_while", "rev", "skip
 OK_PASSTHROUGH = {"map_err", "map", "or_else", "context"}  # Result/Option combinators keeping Ok-ness (map keeps)
 UNSIGNED = {"u8", "u16", "u32", "u64", "u128", "usize"}
 
+DOM_LOG = None   # set to a list by the thorough tier: every dominance query is logged for the MIR cross-check
+
 # ----------------------------------------------------------------------------- formulas
 T = ("T",)
 F = ("F",)
@@ -928,6 +930,12 @@ class Flow:
 
     def dominators(self, target):
         """Nodes evaluated on every structured path before `target` is evaluated (A4)."""
+        out = self._dominators(target)
+        if DOM_LOG is not None:
+            DOM_LOG.append((self.prog, self.fn, target, out))
+        return out
+
+    def _dominators(self, target):
         out = []
         child = target
         # sub-expressions of the target itself are evaluated before it completes
